@@ -21,6 +21,7 @@ HOSTILE = [
     '"', "'", '"abc', "(", ")", "[", "\\", "...", "…", "1...", "-", "--1", "0x", "1_", "1e999", "9" * 40, "-0", "0", "-1", "2**31", "NaN", "sNaN", "Infinity", "-Infinity",
     "1.5", "ä", "€", "a\x00b", "\t", "a\rb", "a\nb", " ", "", "x" * 300, "%", "%Q", "{", "*", "?", "[a-", "(?P<", "lambda", "count", "__class__", "is_valid", "format", "none",
     "0x110000", 'u"a"', "for", "None", "1,2", "a,b", ";", "'a' 'b'", '"""', "\\x", "DD.DD", "1...2...3", "5...1",
+    "  'a'\n 'b'", "\t'a'\n  'b'", "rot13", "base64", "hex", "utf-16", "utf-32", "zlib", "idna", "punycode", "undefined", "utf-8-sig", "unicode_escape",
     ",", ",,", '"\\x"', "'\\'", '"\\u12"', '"\\N{x}"', '"\\"', "...,", ",1", "1,", "a,", "- ,", "0x1,0x", "%%", "\\", "[", "]]", "(?i", "a**", "x{2,1}",
 ]
 FIELDS = {
@@ -283,6 +284,69 @@ def container_case(case, part):
         part.fail("%s|container:%s:%s:%s|%s|%s" % (fmt, case["target"], storage, case["kind"], where.split(":")[0], exception), case, "success, InterfaceError or DataError", [where, exception])
 
 
+def stream_case(case, part):
+    """Text data handed over as a stream that preserves line endings, in every line-ending style, with the one-character
+    flag field first or last, and with one character deleted / replaced at an offset.
+    case: {"format", "flag_first", "ending", "mutation": None | ["delete", at] | ["replace", at, character]}"""
+    import cutplace
+
+    m = harness.modules()
+    errors = m["errors"]
+    fmt = case["format"]
+    order = [7, 0, 1, 2, 3, 4, 5, 6] if case["flag_first"] else list(range(8))
+    rows = [["D", "Format", fmt]] + [["D"] + p for p in PROPS[fmt] if p[0] != "Line delimiter"]
+    rows += [["F"] + FIELDS[fmt][i] for i in order] + [["C"] + c for c in CHECKS]
+    widths = [WIDTHS[i] for i in order]
+    ending = case["ending"]
+    lines = []
+    for number, row in enumerate(DATA):
+        cells = [row[i] for i in order]
+        line = "".join(c.ljust(w) for c, w in zip(cells, widths)) if fmt == "fixed" else ",".join(cells)
+        lines.append(line + (["\n", "\r", "\r\n"][number % 3] if ending == "mixed" else ending))
+    text = "".join(lines)
+    mutation = case.get("mutation")
+    if mutation:
+        at = mutation[1]
+        if at >= len(text):
+            return
+        text = text[:at] + (mutation[2] if mutation[0] == "replace" else "") + text[at + 1:]
+    part.evaluations += 1
+    part.nontrivial += 1
+    leaks = []
+    del OUTCOMES[:]
+    cid = harness.make_cid(rows)
+    attempt("rows", lambda: list(cutplace.rows(cid, harness.NamedStringIO(text, "stream.txt"), on_error="yield")), errors, leaks)
+    attempt("validate", lambda: cutplace.validate(cid, harness.NamedStringIO(text, "stream.txt")), errors, leaks)
+    part.transitions += 2
+    part.validated += 1
+    part.state((fmt, "stream", tuple(OUTCOMES)))
+    part.outcome("leak" if leaks else "clean")
+    for where, exception in leaks:
+        part.fail("%s|stream:%s:%s|%s|%s|%s" % (fmt, "flag-first" if case["flag_first"] else "flag-last", {"\n": "lf", "\r": "cr", "\r\n": "crlf"}.get(ending, ending), where, exception,
+                                                "intact" if not mutation else mutation[0]), case, "success, InterfaceError or DataError", [where, exception])
+
+
+def streams(item):
+    part = Part()
+    for case in item:
+        stream_case(case, part)
+    part.sample(item[len(item) // 2], limit=1)
+    return part
+
+
+def stream_cases():
+    cases = []
+    for fmt in ("fixed", "delimited"):
+        for flag_first in (True, False):
+            for ending in ("\n", "\r\n", "\r", "mixed"):
+                cases.append({"format": fmt, "flag_first": flag_first, "ending": ending})
+                for at in range(0, 130):
+                    cases.append({"format": fmt, "flag_first": flag_first, "ending": ending, "mutation": ["delete", at]})
+                    for character in ("x", "\r", "\n", '"'):
+                        cases.append({"format": fmt, "flag_first": flag_first, "ending": ending, "mutation": ["replace", at, character]})
+    return cases
+
+
 _CONTAINERS = {}
 
 
@@ -381,13 +445,16 @@ def run(ctx):
     quick = ctx.tier == "quick"
     cases = []
     for fmt in ("delimited", "fixed", "excel", "ods"):
+        rows = base_rows(fmt)
         for row, column in cid_cells(fmt):
-            for value in HOSTILE:
-                cases.append({"format": fmt, "cid": [[row, column, value]], "main": fmt in ("delimited", "fixed") or value in HOSTILE[:12]})
+            # the field and check rows of the Excel / ODS CIDs are those of the delimited CID: every 3rd value there
+            values = HOSTILE if fmt in ("delimited", "fixed") or rows[row][0] == "D" or not quick else HOSTILE[::3]
+            for value in values:
+                cases.append({"format": fmt, "cid": [[row, column, value]], "main": fmt == "delimited" or (fmt == "fixed" and rows[row][0] == "D")})
         for row in range(len(DATA)):
             for column in range(len(DATA[0])):
                 for value in HOSTILE:
-                    cases.append({"format": fmt, "data": [[row, column, value]], "main": row == 0})
+                    cases.append({"format": fmt, "data": [[row, column, value]], "main": row == 0 and fmt in ("delimited", "excel")})
     single = len(cases)
     if not quick:
         short = HOSTILE[:30]
@@ -406,7 +473,10 @@ def run(ctx):
     ctx.pmap(MOD, "work", engine.chunks(cases, 150 if quick else 600), label="C10 cells")
     corrupt = container_cases(ctx.tier)
     ctx.pmap(MOD, "containers", engine.chunks(corrupt, 60), label="C10 containers")
-    ctx.bound = {"hostile pool": len(HOSTILE), "single hostile cell cases": single, "pair cases": len(cases) - single,
+    stream = stream_cases()
+    ctx.pmap(MOD, "streams", engine.chunks(stream, 400), label="C10 streams")
+    ctx.bound = {"stream cases": "%d: fixed and delimited data as line-ending preserving streams in 4 line-ending styles (LF, CRLF, CR, mixed), one-character field first / last, one character deleted or replaced (x, CR, LF, quote) at every offset" % len(stream),
+                 "hostile pool": len(HOSTILE), "single hostile cell cases": single, "pair cases": len(cases) - single,
                  "container cases": "%d (truncation and low/high bit flip at every %s offset of ods/xlsx files, every offset of csv / fixed text; bits %s of every byte of the zip local headers, central directory and end record; data files of 4 formats, CID files as csv, ods, xlsx)" % (len(corrupt), "16th" if quick else "single", "0, 4, 7" if quick else "0..7")}
     ctx.rule = ("one hostile value at a time (thorough: pairs) in every cell of every row of 4 valid base CIDs and of their 3-row data; each case runs Cid.read, rows x 3 modes, validate, Writer and "
                 "applications.main; non-trivial = every case (each injects a fault); states = distinct vectors of outcomes over the entry points (loaded / error class per call, exit code); any escaping exception other than "
